@@ -26,6 +26,7 @@ func checkC03(c *Ctx, r *Report) {
 	r.rule("C03.NILTYPE", "readType results reach a struct field only under a nil test (before or immediately after, failing the parse)")
 	r.rule("C03.ASSERT", "x.(T) without ok only where x's producer guarantees T")
 	r.rule("C03.TABLE", "index range of constant-table lookups < table length")
+	r.rule("C03.EXPO", "a recursive call that follows a reference selector and is measured by a depth counter only, in a component with a recursive call inside a loop, is also guarded by a visited set")
 	r.rule("C03.REFLECT", "reflect.Value.Call: arity check and per-argument Zero / AssignableTo / ConvertibleTo")
 	r.rule("C03.NILMAP", "MapUpdate on a field-held map is preceded by a nil test with initialisation")
 	r.rule("C03.DEPTH", "depth <= 0 exit dominates the dispatcher's descents; entry points pass MaxResolveDepth or a constant")
@@ -39,6 +40,7 @@ func checkC03(c *Ctx, r *Report) {
 	c03Reflect(c, r)
 	c03NilMap(c, r)
 	c03Depth(c, r)
+	c03NilUse(c, r)
 }
 
 func c03Loop(c *Ctx, r *Report) {
@@ -59,8 +61,8 @@ func c03Loop(c *Ctx, r *Report) {
 	n := 0
 	for _, fn := range fns {
 		r.fnSeen(fnName(fn))
-		if fn == e.readByte {
-			continue
+		if fn == e.readByte || e.rawRead[fn] {
+			continue // modelled by hand; its retry loop around the raw read is a C03.BOUND obligation
 		}
 		if e.blown[fn] {
 			r.undecided("C03.LOOP", fnName(fn)+": state budget", fn.Pos(), "abstract state space exceeded the budget")
@@ -268,7 +270,9 @@ func (e *e4Engine) dumpSummaries(filter string) {
 	for k := range e.sums {
 		ks = append(ks, k)
 	}
-	sort.Slice(ks, func(i, j int) bool { return fnName(ks[i].fn)+fmt.Sprint(ks[i].deck, ks[i].eof) < fnName(ks[j].fn)+fmt.Sprint(ks[j].deck, ks[j].eof) })
+	sort.Slice(ks, func(i, j int) bool {
+		return fnName(ks[i].fn)+fmt.Sprint(ks[i].deck, ks[i].eof) < fnName(ks[j].fn)+fmt.Sprint(ks[j].deck, ks[j].eof)
+	})
 	for _, k := range ks {
 		if filter != "" && fnName(k.fn) != filter {
 			continue
@@ -332,6 +336,32 @@ func c03Rec(c *Ctx, r *Report) {
 			pos = cyc[0].site.Pos()
 			r.add("C03.REC", key, pos, Violated, "a cycle of calls on which nothing decreases: on cyclic data (or unbounded input) the recursion does not terminate and overflows the stack, which cannot be recovered", w...)
 		}
+		// EXPO: a call that re-enters the recursion through a reference (a fragment spread entering the fragment's
+		// definition) and is bounded by nothing but a depth counter is made again for every path that leads to
+		// it. When the recursion also fans out (a recursive call inside a loop) the number of calls is
+		// fan-out^depth: a fragment that spreads itself twice costs 2^100 calls. Such an edge must also be cut by a
+		// visited set.
+		fanOut := false
+		for _, e := range sc.edges {
+			if inLoop(e.site.Block()) {
+				fanOut = true
+			}
+		}
+		for _, e := range sc.edges {
+			if e.class != "DEC" {
+				continue
+			}
+			sel := followsReference(c, eng, e.from, e.to, e.site)
+			// only references inside the request re-enter the tree that is being walked; a reference on the schema
+			// side (a union's member, a field's type) selects the type of one value and is followed once per value
+			if sel != "FragRef.Fragment" && sel != "Executable.Fragments" {
+				continue
+			}
+			ekey := fmt.Sprintf("reference call %s -> %s through %s", fnName(e.from), fnName(e.to), sel)
+			vis := visitedGuarded(e.from, e.to, e.site)
+			r.add("C03.EXPO", ekey, e.site.Pos(), map[bool]Status{true: Discharged, false: Violated}[vis || !fanOut],
+				"the call follows "+sel+" back into a recursion that fans out and is bounded by a depth counter only: a definition that refers to itself (or to a shared definition) k times at every level is expanded k^depth times - `fragment A on Query { title ...A ...A }` does not return in any useful time")
+		}
 		// STACK: input-consuming recursion needs a depth bound
 		if classes["INPUT"] > 0 || classes["BOUNDED"] > 0 {
 			// every cycle must pass a call that is dominated by the nesting guard
@@ -371,10 +401,11 @@ func c03Bound(c *Ctx, r *Report) {
 	r.Tables["reviewed_loops"] = reviewedLoops
 	n := 0
 	for _, fn := range c.allFns {
-		if isScannerFn(c, fn) && fn.Name() != "readByte" {
-			continue
-		}
+		scanner := isScannerFn(c, fn) && fn.Name() != "readByte"
 		for li, l := range loopsOf(fn) {
+			if scanner && !rawReadLoop(l) {
+				continue // C03.LOOP
+			}
 			n++
 			key := fmt.Sprintf("%s: loop %d (%s)", fnName(fn), li+1, l.head.Comment)
 			pos := loopPos(l)
@@ -386,8 +417,9 @@ func c03Bound(c *Ctx, r *Report) {
 					r.add("C03.BOUND", key, pos, Discharged, "counted loop: "+why)
 				} else if why, ok := descentLoop(l); ok {
 					r.add("C03.BOUND", key, pos, Discharged, "descent loop: "+why)
-				} else if why, ok := reviewedLoops[fnName(fn)]; ok {
-					if fn.Name() == "readByte" {
+				} else if why, ok := reviewedLoops[fnName(fn)]; ok || rawReadLoop(l) {
+					if rawReadLoop(l) {
+						why = reviewedLoops["(*parser).readByte"]
 						// the reviewed argument covers exactly one way round the loop: Read returned (0, nil). Every back edge
 						// must be taken only when the read reported no error.
 						okRetry := true
@@ -1175,4 +1207,104 @@ func guardedByLen(b *ssa.BasicBlock, idx ssa.Value, n int64) bool {
 		}
 		return false
 	})
+}
+
+// ---- NILUSE ---------------------------------------------------------------------
+//
+// C03.NILTYPE accepts a nil stored into a nil-tolerant field on the belief that "every use tests for nil".
+// NILUSE checks that belief: a value loaded from such a field is the receiver of an interface method call
+// or of a single-result type assertion (both panic on nil) only where a dominating test establishes that it
+// is not nil (v != nil, a successful assertion, a type-switch case); handing the value to a function of the
+// package moves the obligation to the uses of that parameter (bounded depth).
+func c03NilUse(c *Ctx, r *Report) {
+	r.rule("C03.NILUSE", "a value loaded from a nil-tolerant field (Inline.Condition) is invoked / hard-asserted only under a dominating non-nil fact; passing it on moves the obligation to the callee's parameter")
+	tolerant := map[string]bool{"Inline.Condition": true}
+	n := 0
+	type use struct {
+		in  ssa.Instruction
+		how string
+	}
+	var unguarded func(fn *ssa.Function, v ssa.Value, depth int, seen map[ssa.Value]bool) []use
+	unguarded = func(fn *ssa.Function, v ssa.Value, depth int, seen map[ssa.Value]bool) []use {
+		if seen[v] || v.Referrers() == nil {
+			return nil
+		}
+		seen[v] = true
+		var out []use
+		nonNil := func(b *ssa.BasicBlock) bool {
+			if provenNonNil(v, b, 0) {
+				return true
+			}
+			for _, f := range assertFacts(b) {
+				if f.holds && sameVal(f.x, v) {
+					return true
+				}
+			}
+			return len(caseTypes(b, v)) > 0 // inside a type-switch arm on v
+		}
+		for _, ref := range *v.Referrers() {
+			switch t := ref.(type) {
+			case *ssa.Phi:
+				out = append(out, unguarded(fn, t, depth, seen)...)
+			case *ssa.ChangeInterface:
+				out = append(out, unguarded(fn, t, depth, seen)...)
+			case *ssa.TypeAssert:
+				if !t.CommaOk && !nonNil(t.Block()) {
+					out = append(out, use{t, "asserted to " + typeStr(t.AssertedType) + " without ok"})
+				}
+			case ssa.CallInstruction:
+				cm := t.Common()
+				if cm.IsInvoke() && cm.Value == v {
+					if !nonNil(t.Block()) {
+						out = append(out, use{t, "method " + cm.Method.Name() + " called on it"})
+					}
+					continue
+				}
+				cal := cm.StaticCallee()
+				if cal == nil || !c.inPkg(cal) || len(cal.Blocks) == 0 || depth >= 3 {
+					continue
+				}
+				if nonNil(t.Block()) {
+					continue
+				}
+				for i, a := range cm.Args {
+					if a == v && i < len(cal.Params) {
+						for _, u := range unguarded(cal, cal.Params[i], depth+1, seen) {
+							out = append(out, use{u.in, u.how + " (reached through the call at " + c.pos(t.Pos()) + ")"})
+						}
+					}
+				}
+			}
+		}
+		return out
+	}
+	for _, fn := range c.allFns {
+		if !c.inPkg(fn) {
+			continue
+		}
+		k := 0
+		for _, b := range fn.Blocks {
+			for _, in := range b.Instrs {
+				v, ok := in.(ssa.Value)
+				if !ok {
+					continue
+				}
+				_, o, f, isLd := loadOfField(v)
+				if !isLd || !tolerant[o+"."+f] {
+					continue
+				}
+				n++
+				k++
+				r.fnSeen(fnName(fn))
+				us := unguarded(fn, v, 0, map[ssa.Value]bool{})
+				d, pos := "", in.Pos()
+				if len(us) > 0 {
+					d = us[0].how + " where it may be nil (a spread of an undefined fragment, a definition without a type name, an inline fragment without a condition): nil dereference inside parse / validate / resolve"
+					pos = us[0].in.Pos()
+				}
+				r.check("C03.NILUSE", fmt.Sprintf("%s: use #%d of %s.%s tolerates nil", fnName(fn), k, o, f), pos, len(us) == 0, d)
+			}
+		}
+	}
+	r.floor("C03.NILUSE", "loads of nil-tolerant fields", n, 4)
 }
